@@ -103,6 +103,20 @@ func c16Flag(op string, mask, f, a uint8) string {
 	if m := c16History(op, mask, f, a); m != "" {
 		return m
 	}
+	// the mask spelled as a complement in the Flag type ("all flags but ..."): ^Flag(^mask) names the same bits
+	g = mk()
+	cm := ^z80.Flag(^mask)
+	switch op {
+	case "GetFlag":
+		got = g.GetFlag(cm)
+	case "SetFlag":
+		g.SetFlag(cm)
+	case "ResetFlag":
+		g.ResetFlag(cm)
+	}
+	if m := chk("GPR, mask written as ^Flag(^m):", g, got); m != "" {
+		return m
+	}
 	return ""
 }
 
